@@ -381,7 +381,7 @@ def depth_levels(spec):
 # ---------------------------------------------------------------- strategy
 @st.composite
 def specs(draw, tier='quick', max_books=2, arrays=True, names=True, wholecols=True, errors=True,
-          min_cells=4, max_cells=14, const=None, sheet_classes=None, name_rate=6):
+          min_cells=4, max_cells=14, const=None, sheet_classes=None, name_rate=6, arr_rate=10):
     nb = draw(st.integers(1, max_books))
     used_names = set()
     books = []
@@ -406,7 +406,7 @@ def specs(draw, tier='quick', max_books=2, arrays=True, names=True, wholecols=Tr
         if (b, s, r, c) in taken:
             continue
         arr = None
-        if arrays and i >= 2 and draw(st.integers(0, 9)) == 0:
+        if arrays and i >= 2 and draw(st.integers(0, arr_rate - 1)) == 0:
             h, w = draw(st.sampled_from([(1, 2), (2, 1), (2, 2), (3, 1), (1, 3), (2, 3), (3, 2)]))
             keys = {(b, s, r + di, c + dj) for di in range(h) for dj in range(w)}
             if r + h - 1 <= MAXR + 1 and c + w - 1 <= MAXC + 1 and not (keys & taken):
@@ -425,7 +425,8 @@ def specs(draw, tier='quick', max_books=2, arrays=True, names=True, wholecols=Tr
         earlier = [k for ks in all_keys[:idx] for k in ks]
         later = {k for ks in all_keys[idx:] for k in ks}
         ctx = dict(spec=spec, locs=locs, earlier=earlier, later=later, cur=key, errors=errors,
-                   wholecols=wholecols, ncols_used=ncols_used, names_ok=names)
+                   wholecols=wholecols, ncols_used=ncols_used, names_ok=names,
+                   arr_groups=[all_keys[j] for j in range(idx) if pos_list[j][1] is not None])
         if names and earlier and len(spec['names']) < 2 and draw(st.integers(0, name_rate - 1)) == 0:
             rect = draw(_dense_rect(ctx)) if draw(st.booleans()) else draw(_rect(ctx, small=True))
             if rect is not None:
@@ -538,6 +539,16 @@ def _range_arg(draw, ctx):
         if not bad:
             ctx['ncols_used'][0] += 1
             return ['col', [b, s, c1, c2]]
+    if kind in (4, 5, 6) and ctx.get('arr_groups'):
+        # a rectangle that wholly contains an earlier array formula (plus, when free of later cells, one more row)
+        g = draw(st.sampled_from(ctx['arr_groups']))
+        b, s = g[0][0], g[0][1]
+        r1, r2 = min(k[2] for k in g), max(k[2] for k in g)
+        c1, c2 = min(k[3] for k in g), max(k[3] for k in g)
+        if draw(st.booleans()) and not any((b, s, r2 + 1, c) in ctx['later'] for c in range(c1, c2 + 1)):
+            r2 += 1
+        t = ['rng', [b, s, r1, c1, r2, c2]]
+        return t
     rect = draw(_dense_rect(ctx)) if kind in (2, 3) else draw(_rect(ctx))
     if rect is None:
         return draw(_scalar_ref(ctx))
